@@ -18,7 +18,14 @@ of length 1..3 with all gains x {1e-15, 1e-9, 1e9} and the noise x the same set
 (alike and independently), Pt and noise x {1e-12, 1e12}, Es in {1e-6, 1e6};
 a wide alphabet {1e-20, 1e-14, 1e-7, 1, 1e8, 1e16} (spreads up to 36 decades) x
 tiny/huge Pt, noise, Es; link-budget members (gains ~1e-13, thermal noise 1e-13).
-All tolerances are relative to the scale of the case.
+Ratio family: r = noise/(Es*gain_best*Pt) over 1e-48 .. 1e48, gains, noise, Es and Pt
+each varied on its own over {1e-12,1e-6,1,1e6,1e12}, plus every decade of r in 1e-12..1e15
+at Pt, Es in {1e-12,1,1e12} x {1e-6,1,1e6}, for 9 small shapes incl. ties and
+near-ties (1-2^-30, 1-1e-9); on these (n<=3) the allocation is also compared with the
+exact rational optimum (fractions).
+Tolerances: |sum(P)-Pt| <= 32*eps*n*Pt; allocation 256*eps*(n*Pt + T) where T = largest
+active threshold if the active thresholds differ (the rounding of N/(Es g) itself then
+moves the optimum) and 0 for tied / single active channels; KKT in differences form.
 
 Relations checked on every evaluation (reference model written here):
   R1  shape / finiteness, input array not modified
@@ -70,7 +77,12 @@ WIDE_PTS = (1.0, 3.0, 1e-12, 1e12)
 WIDE_NOISES = (1.0, 1e-14, 1e-13, 1e9)
 WIDE_ESS = (1.0, 1e-6, 1e6)
 SCALES = (1e-15, 1e-9, 1e9)
-C_TOL = 256.0            # relations: |lhs-rhs| <= C_TOL * 2^-52 * scale
+# ratio family: r = noise/(Es*gain_best*Pt) from 1e-48 to 1e48, every factor varied on its own
+RATIO_SCALES = (1.0, 1e-6, 1e6, 1e-12, 1e12)
+RATIO_SHAPES = ((1.0,), (1.0, 1.0), (1.0, 0.5), (1.0, 1.0 - 2.0 ** -30), (1.0, 1.0 - 1e-9),
+                (1.0, 1.0, 1.0), (1.0, 0.5, 0.5), (1.0, 1.0, 0.3), (1.0, 1.0 - 1e-7, 1.0 - 3e-7))
+C_TOL = 256.0
+C_SUM = 32.0           # |sum(P) - Pt| <= C_SUM * 2^-52 * n * Pt            # relations: |lhs-rhs| <= C_TOL * 2^-52 * scale
 C_CAP = 256.0            # capacity comparisons
 GRID = {1: 1, 2: 12, 3: 12, 4: 8, 5: 6}
 
@@ -121,6 +133,25 @@ def ref_waterfilling(g, Pt, N, Es):
     return P, level, k
 
 
+def exact_waterfilling(g, Pt, N, Es):
+    """the exact optimum for the float inputs, in rational arithmetic (fractions): thresholds
+    N/(Es g) exactly, largest affordable active set, P_i = (Pt + sum_j (t_j - t_i))/k.
+    Returned rounded to float."""
+    from fractions import Fraction as F
+    Ptq, Nq, Eq = F(Pt), F(N), F(Es)
+    t = [Nq / (Eq * F(gi)) for gi in g]
+    order = sorted(range(len(t)), key=lambda i: t[i])
+    ts = [t[i] for i in order]
+    for k in range(len(ts), 0, -1):
+        if k == 1 or Ptq + sum(ts[:k]) - k * ts[k - 1] >= 0:
+            break
+    P = [0.0] * len(t)
+    tot = Ptq + sum(ts[:k])
+    for r in range(k):
+        P[order[r]] = float(tot / k - ts[r])
+    return P, k
+
+
 def capacity(P, g, N, Es):
     """sum log2(1 + g Es P / N); P may be (m, n)"""
     x = np.asarray(P, dtype=float) * (np.asarray(g, dtype=float) * (Es / N))
@@ -142,6 +173,9 @@ def eval_case(chk, g, Pt, N, Es, case, grid=True, canon=None):
     chk.outcome("active_channels", (n, int(kact)))
     if case.get("kind") in ("spread", "scaled", "generic_scaled", "link_budget"):
         chk.outcome("scale_family_active_channels", (case.get("kind"), n, int(kact)))
+    if case.get("kind") == "ratio":
+        r = N / (Es * max(g) * Pt)
+        chk.outcome("ratio_decades", (int(math.floor(math.log10(r) + 0.5)), int(kact)))
     chk.count("eval_doWF")
     P, mu = doWF(garr, Pt, N, Es)
     P = np.asarray(P)
@@ -154,10 +188,16 @@ def eval_case(chk, g, Pt, N, Es, case, grid=True, canon=None):
         chk.fail(("doWF", "input_modified"), case, observed=garr, expected=keep)
     mu = float(mu)
     active = P > 0
-    # scale of the float relations: the largest quantity that enters a subtraction
-    # (every threshold of an active channel is <= level)
+    # Tolerances are relative to Pt (the allocation lives on the scale of Pt, however large
+    # the thresholds N/(Es g) are).  Only when the ACTIVE channels have different thresholds
+    # does the rounding of the thresholds themselves (one ulp of N/(Es g), input conditioning:
+    # N/(Es g) vs (N/Es)/g) move the optimum by eps*threshold; tied / single active channels
+    # get exactly Pt/k under any evaluation order.
+    ts_act = np.sort(t)[:kact]
+    tcond = float(ts_act[-1]) if (kact > 1 and ts_act[-1] > ts_act[0]) else 0.0
     sc = max(Pt, level)
-    tol = C_TOL * EPS * sc
+    tol = C_TOL * EPS * (n * Pt + tcond)
+    tol_sum = C_SUM * EPS * n * Pt
     # R2
     if np.any(P < 0):
         i = int(np.argmin(P))
@@ -168,24 +208,40 @@ def eval_case(chk, g, Pt, N, Es, case, grid=True, canon=None):
                  expected=">= 0", msg="channel %d" % i)
     # R3
     s = math.fsum(P.tolist())
-    if abs(s - Pt) > tol:
-        chk.fail(("doWF", "allocation", "sum_ne_Pt"), case, observed=s, expected=Pt)
+    if abs(s - Pt) > tol_sum:
+        chk.fail(("doWF", "allocation", "sum_ne_Pt"), case, observed=s, expected=Pt,
+                 msg="relative error %.3g, allowed %g*eps*n" % (abs(s - Pt) / Pt, C_SUM))
     # R4
     if float(np.max(np.abs(P - refP))) > tol:
         i = int(np.argmax(np.abs(P - refP)))
         chk.fail(("doWF", "allocation", "differs_from_reference_waterfilling"), case,
                  observed=P, expected=refP, msg="channel %d" % i)
-    # R5 (from the allocation alone)
+    # R4x exact rational optimum (small n, the ratio / link-budget families)
+    if case.get("kind") in ("ratio", "link_budget") and n <= 3:
+        chk.count("eval_exact_rational_reference")
+        xP, xk = exact_waterfilling(g, Pt, N, Es)
+        xP = np.array(xP)
+        if float(np.max(np.abs(refP - xP))) > tol:
+            raise AssertionError("reference model disagrees with exact arithmetic: %r vs %r" % (refP, xP))
+        if float(np.max(np.abs(P - xP))) > tol:
+            chk.fail(("doWF", "allocation", "differs_from_exact_rational_optimum"), case,
+                     observed=P, expected=xP)
+    # R5 KKT from the allocation alone, in DIFFERENCES form (never P + threshold, which
+    # would lose P when the thresholds dwarf Pt): for active i, j  P_i - P_j == t_j - t_i;
+    # for active i and empty j  P_i <= t_j - t_i
     if np.any(active):
-        lv = P[active] + t[active]
-        L = float(np.max(lv))
-        if float(np.max(lv) - np.min(lv)) > 2 * tol:
+        ia = np.nonzero(active)[0]
+        i0 = int(ia[np.argmin(t[ia])])
+        dP = P[i0] - P[ia]
+        dt = t[ia] - t[i0]
+        if float(np.max(np.abs(dP - dt))) > 2 * tol:
             chk.fail(("doWF", "kkt", "active_channels_at_different_levels"), case,
-                     observed=lv, expected="one common level")
-        if np.any(~active) and float(np.min(t[~active])) < L - 2 * tol:
+                     observed="P_best-P_i=%r" % (dP.tolist(),), expected="t_i-t_best=%r" % (dt.tolist(),))
+        if np.any(~active) and float(np.min(t[~active] - t[i0])) < P[i0] - 2 * tol:
             chk.fail(("doWF", "kkt", "better_channel_left_empty"), case,
-                     observed="threshold %r < level %r" % (float(np.min(t[~active])), L),
-                     expected="inactive thresholds >= level")
+                     observed="P_best=%r > t_empty-t_best=%r" % (float(P[i0]),
+                                                                 float(np.min(t[~active] - t[i0]))),
+                     expected="empty channels lie above the level")
     # R6 returned water level
     want = np.maximum(0.0, mu - t)
     tol_mu = C_TOL * EPS * max(sc, abs(mu))
@@ -219,7 +275,9 @@ def eval_case(chk, g, Pt, N, Es, case, grid=True, canon=None):
         chk.count("eval_competitors", int(Q.shape[0]))
         capQ = capacity(Q, g, N, Es)
         b = int(np.argmax(capQ))
-        if float(capQ[b]) > capP + C_CAP * EPS * (max(capP, float(capQ[b])) + n):
+        # capacities are computed with log1p (relatively accurate); an allocation error of tol
+        # changes the capacity by at most n*tol/(level ln2)
+        if float(capQ[b]) > capP + C_CAP * EPS * max(capP, float(capQ[b])) + 2 * n * tol / (level * math.log(2.0)):
             chk.fail(("doWF", "optimality", "competitor_has_larger_capacity"), case,
                      observed="capacity %r for %r" % (capP, P.tolist()),
                      expected="competitor %r reaches %r" % (Q[b].tolist(), float(capQ[b])))
@@ -296,8 +354,10 @@ def check_covariance(chk, rel, case, a):
     chk.count("eval_doWF", 2)
     P0, mu0 = doWF(np.array(b["gains"], dtype=float), b["Pt"], b["noise"], b["Es"])
     P1, mu1 = doWF(np.array(case["gains"], dtype=float), case["Pt"], case["noise"], case["Es"])
-    _, level, _ = ref_waterfilling(b["gains"], b["Pt"], b["noise"], b["Es"])
-    tol = 4 * C_TOL * EPS * max(b["Pt"], level) * a
+    _, level, kact = ref_waterfilling(b["gains"], b["Pt"], b["noise"], b["Es"])
+    ts_act = sorted(thresholds(b["gains"], b["noise"], b["Es"]))[:kact]
+    tcond = ts_act[-1] if (kact > 1 and ts_act[-1] > ts_act[0]) else 0.0
+    tol = 4 * C_TOL * EPS * (len(b["gains"]) * b["Pt"] + tcond) * a
     if np.shape(P1) != np.shape(P0) or float(np.max(np.abs(np.asarray(P1) - a * np.asarray(P0)))) > tol:
         chk.fail(("doWF", "scale_covariance", rel, "allocation"), case, observed=P1,
                  expected=a * np.asarray(P0))
@@ -357,6 +417,10 @@ def prelude_jobs():
     yield ("link_budget", (1.0, 1e-14), 3.0, 1e-14, 1.0)
     yield ("link_budget", (4e-13, 2.5e-13, 6e-14, 3e-15), 1.0, 1e-13, 1.0)
     yield ("link_budget", (2e-12, 5e-13, 1e-13), 0.2, 4e-15, 1.0)
+    # very low SNR: noise/(Es gain) >= 1e7 x total power
+    yield ("link_budget", (1e-11,), 0.7, 1.0, 1.0)
+    yield ("link_budget", (1e-11, 1e-11), 0.7, 1.0, 1.0)
+    yield ("link_budget", (1e-12, 1e-12, 4e-13), 1.0, 1e3, 1e-3)
     # tidy gain vectors 1..n and 0.1..0.1n at the ulp-level switch-on boundaries
     for n in range(2, 14):
         for g in (tuple(float(k) for k in range(1, n + 1)),
@@ -390,6 +454,23 @@ def all_jobs(tier):
                         yield ("generic", g, Pt, N, Es)
                 for PtB in boundary_powers(g, 1.0, 0.5)[:6]:
                     yield ("generic_boundary", g, PtB, 1.0, 0.5)
+    # ---- ratio family: gains, noise, Es, Pt each over {1e-12,1e-6,1,1e6,1e12} ----
+    shapes = RATIO_SHAPES + (((1.0, 0.7, 0.7, 0.2), (1.0,) * 5) if tier == "thorough" else ())
+    for shape in shapes:
+        for cg in RATIO_SCALES:
+            ms = tuple(v * cg for v in shape)
+            for N in RATIO_SCALES:
+                for Es in RATIO_SCALES:
+                    for Pt in RATIO_SCALES:
+                        for f in ((1.0, 0.7) if tier == "thorough" else (0.7,)):
+                            yield ("ratio", ms, Pt * f, N, Es)
+    # every decade of r = noise/(Es*gain_best*Pt) from 1e-12 to 1e15, at three absolute scales of Pt and Es
+    for shape in RATIO_SHAPES:
+        for d in range(-12, 16):
+            for Pt in (1.0, 1e-12, 1e12):
+                for Es in (1.0, 1e-6, 1e6):
+                    g = 3e-5
+                    yield ("ratio", tuple(v * g for v in shape), Pt, (10.0 ** d) * Es * g * Pt, Es)
     # ---- scale families -------------------------------------------------
     wmax = 4 if tier == "thorough" else 3
     for n in range(1, wmax + 1):
@@ -423,7 +504,7 @@ def all_jobs(tier):
 
 def run_job(chk, job):
     kind, g, Pt, N, Es = job
-    if kind in ("alphabet", "boundary", "spread", "link_budget"):
+    if kind in ("alphabet", "boundary", "spread", "link_budget", "ratio"):
         run_multiset(chk, g, Pt, N, Es, kind)
     elif kind == "scaled":
         run_scaled(chk, g, Pt, N, Es)
@@ -489,6 +570,11 @@ def main(chk):
         raise Broken("vacuous: (length, active) pairs never reached: %r" % missing)
     chk.require_outcomes("active_channels", nmax * (nmax + 1) // 2)
     chk.require_outcomes("scale_family_active_channels", 12)
+    decs = sorted(set(d for d, _ in chk.outcomes.get("ratio_decades", ())))
+    chk.extra["ratio_noise_over_Es_gain_Pt_decades"] = [decs[0], decs[-1]] if decs else []
+    if not decs or decs[0] > -12 or decs[-1] < 15:
+        from vmc.report import Broken
+        raise Broken("vacuous: ratio noise/(Es g Pt) does not span 1e-12..1e15: %r" % (decs[:1] + decs[-1:],))
 
 
 def replay(case, chk):
